@@ -180,8 +180,7 @@ func runSelfTest(r *R, repo, verifDir string, seed int, max int) map[string]inte
 				m.Res = "not_compiled"
 				return
 			}
-			vr := NewR(vw, r.Prop, "quick")
-			pd.Run(vr)
+			vr := RunProperty(vw, pd, "quick", verifDir)
 			if fail, by := vr.Verdict(verifDir); fail {
 				m.Res = "flagged"
 				m.By = by
